@@ -249,9 +249,8 @@ var oracleC18 = oracle{post: func(c *checker) {
 
 func splitBefore(w *hdr.World) map[ref.Hash]bool {
 	m := map[ref.Hash]bool{}
-	if w.Cfg.Splits == "synth" {
-		m[hdr.RH(hdr.Get(hdr.SynthReqBefore).Hash)] = true
-		m[hdr.RH(hdr.Get(hdr.SynthF2Before).Hash)] = true
+	for _, l := range hdr.SplitBeforeLabels(w.Cfg.Splits) {
+		m[hdr.RH(hdr.Get(l).Hash)] = true
 	}
 	return m
 }
@@ -399,7 +398,7 @@ var oracleC19 = oracle{post: func(c *checker) {
 				return nil
 			}
 			seen[h] = true
-			if w.Cfg.Splits == "synth" && !splits[hdr.RH(h)] {
+			if w.Cfg.Splits != "" && !splits[hdr.RH(h)] {
 				c.fail("verify-locator-foreign-hash", "", "GetVerifyOnlyLocatorHashes lists a hash that is no split point")
 				return nil
 			}
